@@ -18,12 +18,29 @@ namespace PoissonSession
 variable {α : Type} [RealOps α]
 open RealOps PoissonLL PoissonTest
 
+/-- the value handed to `GriddedDataSet.scale(val)` ("int, float, or ndarray", forecasts.py:143-155): a scalar (python number,
+    numpy scalar, 0-d or (1,1) array) or an ndarray that numpy broadcasts against the (cells × magnitude bins) array:
+    per-cell factors of shape (n, 1), per-magnitude factors of shape (m,) or (1, m), per-bin factors of shape (n, m) -/
+inductive Factor (α : Type) where
+  | scalar (c : α)
+  | perCell (w : List α)
+  | perMag (w : List α)
+  | perBin (w : List (List α))
+
 structure Fore (α : Type) where
   stored : List (List α)
-  scale : α
+  scale : Factor α
 
-/-- `data = self._data * self._scale` (forecasts.py:75) -/
-def Fore.data (f : Fore α) : List (List α) := f.stored.map (fun row => row.map (fun x => mul x f.scale))
+/-- `self._data * val` with numpy broadcasting (shapes are supplied matching; `zip` stops where numpy would raise) -/
+def Factor.apply (stored : List (List α)) : Factor α → List (List α)
+  | .scalar c => stored.map (fun row => row.map (fun x => mul x c))
+  | .perCell w => (stored.zip w).map (fun p => p.1.map (fun x => mul x p.2))
+  | .perMag w => stored.map (fun row => (row.zip w).map (fun p => mul p.1 p.2))
+  | .perBin w => (stored.zip w).map (fun p => (p.1.zip p.2).map (fun q => mul q.1 q.2))
+
+/-- `data = self._data * self._scale` (forecasts.py:75): every consumer — `data`, `spatial_counts()`, `magnitude_counts()`,
+    `event_count`, `target_event_rates` — reduces THIS array, never the stored one -/
+def Fore.data (f : Fore α) : List (List α) := f.scale.apply f.stored
 
 inductive CatRegion where
   | none | spatialOnly | full
@@ -41,6 +58,7 @@ structure State (α : Type) where
 inductive Op (α : Type) where
   | newForecast (stored : List (List α)) (edges : List Rat)
   | scale (k : Nat) (c : α)
+  | scaleBy (k : Nat) (w : Factor α)
   | setEdges (edges : List Rat)
   | editMag (c e : Nat) (m : Rat)
   | test (m : Mode) (k c : Nat)
@@ -56,8 +74,9 @@ def bindRegion (m : Mode) (r : CatRegion) : CatRegion :=
   | _, r => r
 
 def step (s : State α) : Op α → State α
-  | .newForecast stored edges => { s with fores := s.fores ++ [⟨stored, one⟩], edges := edges }
-  | .scale k c => { s with fores := s.fores.modify k (fun f => { f with scale := c }) }
+  | .newForecast stored edges => { s with fores := s.fores ++ [⟨stored, .scalar one⟩], edges := edges }
+  | .scale k c => { s with fores := s.fores.modify k (fun f => { f with scale := .scalar c }) }
+  | .scaleBy k w => { s with fores := s.fores.modify k (fun f => { f with scale := w }) }
   | .setEdges edges => { s with edges := edges }
   | .editMag c e m => { s with cats := s.cats.modify c (fun cat =>
       { cat with events := cat.events.modify e (fun ev => (ev.1, m)) }) }
